@@ -69,6 +69,11 @@ def apply_override(how, value, ctx, real=False):
         return how[1] if (isint and value % 2 == 0) else decline
     if kind == "odd_add":
         return value + how[1] if (isint and value % 2 == 1) else decline
+    if kind == "ctx_mod3_const":
+        # decided by a context variable alone (usable where there is no tentative value: declarations)
+        c = ctx.get(how[1])
+        c = c.get("values", [None])[-1] if isinstance(c, dict) else c
+        return how[2] if (isinstance(c, int) and not isinstance(c, bool) and c % 3 == 0) else decline
     raise ValueError(how)
 
 
@@ -254,8 +259,9 @@ class Engine:
             ev = canon_event(data)
             rec.got.append(ev)
             rec.got_op.append(self.opi)
-            if has_absent(list(ev.values())) or any(
-                isinstance(v, dict) and has_absent(v.get("values", [])) for v in ev.values()
+            seen = {k: v for k, v in ev.items() if k not in rec.spec.get("absent_ok", ())}
+            if has_absent(list(seen.values())) or any(
+                isinstance(v, dict) and has_absent(v.get("values", [])) for v in seen.values()
             ):
                 self.violate("C16.no_absent", {"probe": rec.id, "sel": rec.strs, "event": ev})
 
@@ -641,10 +647,15 @@ class Engine:
         for pid in self.order:
             rec = self.probes[pid]
             how = rec.spec.get("how")
-            if how and how[0] == "const":
+            if how and how[0] in ("const", "ctx_mod3_const"):
                 sel = rec.spec["sels"][0]
                 if sel["levels"][-1]["fn"] == fn and sel["focus"]["var"] == var and len(sel["levels"]) == 1:
-                    val = how[1]
+                    alat = self._latest.get(act.id, {})
+                    ctx = {cap.get("as") or cap["var"]: alat[cap["var"]]
+                           for cap in sel["levels"][0].get("caps", []) if cap["var"] in alat}
+                    r = apply_override(how, None, ctx)
+                    if r is not DECLINE:
+                        val = r
         if val is NOVALUE:
             self.sim.reach("declared_not_supplied")
         else:
@@ -970,7 +981,8 @@ class Engine:
                     {"op": op, "ref": r["ref"]["log"], "sys": r["sys"]["log"]},
                 )
         if self.sc.get("c16"):
-            self.compare_decl(op, r)
+            if not raised_now:
+                self.compare_decl(op, r)
             ok_model = False  # streams are not judged in this lens
             raised_now = True
         closure_ov = None if self.sc.get("c16") else self.closure_override(op)
